@@ -818,7 +818,8 @@ class FuncVisitor(ast.NodeVisitor):
             if attr in FS_WRITE_METHODS_PATH_ONLY and rt == "Path":
                 fi.effects.append(Effect("fs_write", f"Path.{attr}()", ln))
             # mutation
-            if attr in MUTATORS and rt not in ("str",):
+            is_repo_method = bool(rt and rt in self.pkg.classes and self.pkg.find_method(self.pkg.classes[rt], attr))
+            if attr in MUTATORS and rt not in ("str",) and not is_repo_method:
                 r = self.roots(recv)
                 a = recv.attr if isinstance(recv, ast.Attribute) else ""
                 fi.stores.append(Store(frozenset(r), ast.unparse(f), a, ln, "mutcall"))
